@@ -87,7 +87,8 @@ def run(module, cfg=None, workers=None, env=None, timeout=900,
     res['ok'] = (rc == 0 and not timed_out)
     res['violation'] = ('Error: Invariant' in out or 'is violated' in out
                         or 'Error: Deadlock' in out
-                        or 'Temporal properties were violated' in out)
+                        or 'Temporal properties were violated' in out
+                        or 'was violated' in out)
     return res
 
 
